@@ -11,7 +11,7 @@ W = os.path.join(lib.WORK, "core")
 
 PLANS = {
     # property -> tier -> list of (cfg, render modes)
-    "C01": {"quick": [("wt9", "full-unique"), ("f6", "full-unique")],
+    "C01": {"quick": [("wt9", "full-unique"), ("f7", "full-unique")],
             "thorough": [("wt10", "full-unique"), ("wt10b", "full-unique,lean-shadow"), ("f7", "full-unique"),
                          ("f7b", "full-unique")]},
     "C02": {"quick": [("wt9", "full-unique,lean-shadow")],
